@@ -285,6 +285,10 @@ func (u *Unit) frameObligations(fr *frame, final *State) {
 		keyed := map[string][]Term{}
 		keyedIdx := map[string]Term{}
 		for _, it := range items {
+			if it.rngArr != nil {
+				exc = append(exc, Term{it.inRange("p!frame"), SBool})
+				continue
+			}
 			if it.key != nil {
 				keyed[it.idx.S] = append(keyed[it.idx.S], *it.key)
 				keyedIdx[it.idx.S] = it.idx
